@@ -561,4 +561,15 @@ theorem defaultServiceProvider_flags (env : Env) (opts : Options) :
     by_cases hl : opts.LogoutBindings = [] <;>
     simp [hf, hs, hd, hl]
 
+/-- C17 (new.go `DefaultSessionProvider`): the session cookie provider that `samlsp.New` builds is `HttpOnly` whatever the deployment,
+    `Secure` exactly on https deployments, and named as configured (`token` when no name is) — with
+    `cookieCreateSession_cookie` (`Props/TransSession`): the session cookie is HttpOnly, and Secure on https -/
+theorem defaultSessionProvider_flags (env : Env) (opts : Options) :
+    ∃ p, DefaultSessionProvider env opts = .ok p ∧ p.HTTPOnly = true ∧
+      p.Secure = (env.urlScheme_Options opts == "https") ∧
+      p.Name = (if opts.CookieName = "" then "token" else opts.CookieName) := by
+  unfold DefaultSessionProvider
+  simp only [Outcome.pure_eq_ok]
+  by_cases hn : opts.CookieName = "" <;> simp [hn]
+
 end SamlVerif.TransMiddleware
